@@ -4,9 +4,9 @@ import itertools
 from common import freephil, tokenizer, enc, dec, word_j, obj_j, call_j, quote_tag
 
 LEVEL = "proof"
-LEVEL_TEXT = "Lean theorems, all strings of every length: the quoted scanner inverts escape_python_str for single and triple styles (scanQ_escape_single/triple), one word-iterator step on quote(q,s)++rest returns exactly (s,q), leaves rest untouched and counts the newlines (next_word_of_quoted), tokenize_value_literal(quote(q,s)) = [(s,q)] (tokenize_quote), str(word) = quoted text (str_word), and the whole document 'a = <quoted> newline b = 1' parses to the two definitions (doc_quote); arbitrary following definitions: C01 print_parse_any_width. Tied to /repo by a correspondence run (quote, tokenize_value_literal, parse) over all strings <= 3 (quick) / <= 4 (thorough) over the 12 tokenizer classes, all strings <= 2/3 over those plus 9 exotic characters (CR TAB VT FF NEL LS NUL SUB BOM), plus random long strings; the oracle evaluates the three observations of the property on the implementation."
-LEVEL_NOTE = 'Trusted: Lean kernel (+propext, Quot.sound), the hand-written model of tokenizer.py being the code (checked by the correspondence run), CPython str.replace/join. File input (universal newlines of open()) is outside the property (it speaks of strings).'
-TECHNIQUE = 'Lean 4 proof by induction on the string (scanner inverts escape) + differential correspondence, bounded-exhaustive + random'
+LEVEL_TEXT = "Lean theorems, all strings of every length: the quoted scanner inverts escape_python_str for single and triple styles (scanQ_escape_single/triple), one word-iterator step on quote(q,s)++rest returns exactly (s,q), leaves rest untouched and counts the newlines (next_word_of_quoted), tokenize_value_literal(quote(q,s)) = [(s,q)] (tokenize_quote), str(word) = quoted text (str_word), the whole document 'a = <quoted> newline b = 1' (doc_quote); escape_python_str / quote_python_str are REGENERATED from the Python source on every run and proved equal to the model's escape / quoteStr for all strings (escape_python_str_eq, quote_python_str_eq). Tied to /repo by a correspondence run (quote, tokenize_value_literal, parse) over all strings <= 3 (quick) / <= 4 (thorough) over the 12 tokenizer classes, all strings <= 2/3 over those plus 9 exotic characters, plus random long strings; the oracle evaluates the three observations of the property on the implementation."
+LEVEL_NOTE = 'Trusted: Lean kernel (+propext, Quot.sound), the translator for the leaf functions and the hand-written model of the tokenizer loop (checked by the correspondence run), CPython str.replace/join. File input (universal newlines of open()) is outside the property (it speaks of strings).'
+TECHNIQUE = 'Lean 4 proof by induction on the string (scanner inverts escape) + escape/quote translated from the source + differential correspondence, bounded-exhaustive + random'
 DESIGN_REF = "DESIGN.md §5 C03"
 MODULE = "Phil.Props.C03"
 RULE = ("strings over the 12 tokenizer character classes (plus 9 exotic characters CR TAB VT FF NEL LS NUL SUB BOM in a second bounded-exhaustive tier) {' \" \\ newline blank $ # { } ; = ordinary}: "
